@@ -98,6 +98,10 @@ type (
 	route struct {
 		code int
 		path *MuxPath
+		// ipFilters are the server and rule level IP filters the search
+		// consulted before it reached this result, a cached route is only
+		// valid for clients which pass all of them.
+		ipFilters []*ipfilter.IPFilter
 	}
 )
 
@@ -539,6 +543,11 @@ func (mi *muxInstance) search(req *httpprot.Request) *route {
 	// headers.
 	r := mi.getRouteFromCache(req)
 	if r != nil {
+		for _, f := range r.ipFilters {
+			if !f.Allow(ip) {
+				return forbidden
+			}
+		}
 		if r.code != 0 {
 			return r
 		}
@@ -555,6 +564,11 @@ func (mi *muxInstance) search(req *httpprot.Request) *route {
 		return forbidden
 	}
 
+	var ipFilters []*ipfilter.IPFilter
+	if mi.ipFilter != nil {
+		ipFilters = append(ipFilters, mi.ipFilter)
+	}
+
 	for _, host := range mi.rules {
 		if !host.match(req) {
 			continue
@@ -562,6 +576,9 @@ func (mi *muxInstance) search(req *httpprot.Request) *route {
 
 		if !allowIP(host.ipFilter, ip) {
 			return forbidden
+		}
+		if host.ipFilter != nil {
+			ipFilters = append(ipFilters, host.ipFilter)
 		}
 
 		for _, path := range host.paths {
@@ -579,7 +596,7 @@ func (mi *muxInstance) search(req *httpprot.Request) *route {
 			// the same key may match that one).
 			if len(path.headers) == 0 {
 				if !headerMismatch {
-					r = &route{code: 0, path: path}
+					r = &route{code: 0, path: path, ipFilters: ipFilters}
 					mi.putRouteToCache(req, r)
 				}
 			} else if !path.matchHeaders(req) {
@@ -600,11 +617,11 @@ func (mi *muxInstance) search(req *httpprot.Request) *route {
 	}
 
 	if methodMismatch {
-		mi.putRouteToCache(req, methodNotAllowed)
+		mi.putRouteToCache(req, &route{code: methodNotAllowed.code, ipFilters: ipFilters})
 		return methodNotAllowed
 	}
 
-	mi.putRouteToCache(req, notFound)
+	mi.putRouteToCache(req, &route{code: notFound.code, ipFilters: ipFilters})
 	return notFound
 }
 
